@@ -283,7 +283,7 @@ def cangjie_inputs(rng, quick):
     three_known = ["cdl", "con", "cop", "cuu", "dkp"]
     if quick:
         return rng.sample(one, 6) + rng.sample(two, 70) + three_known + ["".join(rng.choice(az) for _ in range(3)) for _ in range(45)]
-    return one + two + three_known + ["".join(rng.choice(az) for _ in range(3)) for _ in range(500)] + \
+    return one + two + three_known + ["".join(rng.choice(az) for _ in range(3)) for _ in range(800)] + \
         ["".join(rng.choice(az) for _ in range(rng.choice([4, 5]))) for _ in range(60)]
 
 
@@ -795,7 +795,7 @@ def run(c):
         if quick:
             combos = [c.rng.choice([(1, 1), (1, 1), (1, 0), (0, 1), (0, 0)])]
         else:
-            combos = [(1, 1)] + ([c.rng.choice([(0, 0), (1, 0), (0, 1)])] if len(code) <= 2 else [])
+            combos = [(1, 1)] + ([(0, 0), c.rng.choice([(1, 0), (0, 1)])] if len(code) <= 2 else [])
         for (s, e) in combos:
             cases.append(Case("cangjie5", [("simplification", s), ("extended_charset", e)], code, c.rng.choice(["keys", "keys", "set"])))
     for w in luna_inputs(c.rng, 40 if quick else 300):
